@@ -512,6 +512,35 @@ func (e *Engine) producers(v ssa.Value, seen map[ssa.Value]bool, depth int) []ss
 			out = append(out, e.producers(op, seen, depth+1)...)
 		}
 		return out
+	case *ssa.Parameter:
+		// the parameter of an unexported function that is only ever called: what its call sites hand over
+		fn := x.Parent()
+		if e.followParams && fn != nil && fn.Object() != nil && !fn.Object().Exported() && fn.Parent() == nil && inModule(fn) && !e.escapedFn(fn) {
+			idx := -1
+			for i, p := range fn.Params {
+				if p == x {
+					idx = i
+				}
+			}
+			sites := e.callSites(fn)
+			if idx >= 0 && len(sites) > 0 {
+				okAll := true
+				for _, site := range sites {
+					if site.Parent() != nil && isTestFunc(e.w, site.Parent()) {
+						continue
+					}
+					if idx >= len(site.Common().Args) {
+						okAll = false
+						break
+					}
+					out = append(out, e.producers(site.Common().Args[idx], seen, depth+1)...)
+				}
+				if okAll && len(out) > 0 {
+					return out
+				}
+				out = nil
+			}
+		}
 	case *ssa.Field:
 		if res, ok := fieldOf(x.X, x.Field); ok {
 			return res
